@@ -1481,6 +1481,64 @@ impl<T: PPGEvaluatorStrategy> PPGEvaluator<T> {
                                 self.gen
                             );
                         }
+                        // An upstream that had already been skipped can still turn into an
+                        // upstream failure (see above), so the signal may find this job in
+                        // any state.
+                        // Not started yet: same as above, and withdraw the offer.
+                        JobState::Ephemeral(JobStateEphemeral::ReadyButDelayed)
+                        | JobState::Ephemeral(JobStateEphemeral::FinishedSkipped) => {
+                            set_node_state!(
+                                j,
+                                JobState::Ephemeral(JobStateEphemeral::FinishedUpstreamFailure),
+                                self.gen
+                            );
+                        }
+                        JobState::Always(JobStateAlways::ReadyToRun) => {
+                            self.jobs_ready_to_run.remove(&j.job_id);
+                            set_node_state!(
+                                j,
+                                JobState::Always(JobStateAlways::FinishedUpstreamFailure),
+                                self.gen
+                            );
+                        }
+                        JobState::Output(JobStateOutput::ReadyToRun) => {
+                            self.jobs_ready_to_run.remove(&j.job_id);
+                            set_node_state!(
+                                j,
+                                JobState::Output(JobStateOutput::FinishedUpstreamFailure),
+                                self.gen
+                            );
+                        }
+                        JobState::Ephemeral(JobStateEphemeral::ReadyToRun(_)) => {
+                            self.jobs_ready_to_run.remove(&j.job_id);
+                            set_node_state!(
+                                j,
+                                JobState::Ephemeral(JobStateEphemeral::FinishedUpstreamFailure),
+                                self.gen
+                            );
+                        }
+                        // Already started (or done): it had all its inputs, nothing to do,
+                        // and its downstreams are not affected through this job.
+                        JobState::Always(
+                            JobStateAlways::Running
+                            | JobStateAlways::FinishedSuccess
+                            | JobStateAlways::FinishedFailure,
+                        )
+                        | JobState::Output(
+                            JobStateOutput::Running
+                            | JobStateOutput::FinishedSuccess
+                            | JobStateOutput::FinishedFailure,
+                        )
+                        | JobState::Ephemeral(
+                            JobStateEphemeral::Running(_)
+                            | JobStateEphemeral::FinishedSuccessNotReadyForCleanup
+                            | JobStateEphemeral::FinishedSuccessReadyForCleanup
+                            | JobStateEphemeral::FinishedSuccessCleanedUp
+                            | JobStateEphemeral::FinishedSuccessSkipCleanup
+                            | JobStateEphemeral::FinishedFailure,
+                        ) => {
+                            propagate = false;
+                        }
                         _ => {
                             return Err(PPGEvaluatorError::InternalError(format!(
                                 "unexpected was 7 {:?}",
